@@ -383,8 +383,7 @@ fn eval_axis_node_test(
         },
     };
 
-    // The document type declaration is not a node of the XPath data model.
-    nodes.retain(|v| v.node_type() != dom::NodeType::DocumentType);
+    nodes.retain(in_data_model);
 
     let mut tested = vec![];
     for node in nodes {
@@ -417,6 +416,21 @@ fn eval_axis_node_test(
     }
 
     Ok(nodes)
+}
+
+/// The document type declaration is not a node of the XPath data model, and neither is a text
+/// node without characters (an empty CDATA section, an entity with empty replacement text).
+fn in_data_model(node: &dom::XmlNode) -> bool {
+    match node {
+        dom::XmlNode::DocumentType(_) => false,
+        dom::XmlNode::Text(_)
+        | dom::XmlNode::CData(_)
+        | dom::XmlNode::EntityReference(_)
+        | dom::XmlNode::ExpandedText(_) => {
+            !matches!(node.node_value(), Ok(Some(v)) if v.is_empty())
+        }
+        _ => true,
+    }
 }
 
 /// A name test selects only nodes of the principal node type of the axis: attributes on the
@@ -587,8 +601,7 @@ fn descendant(node: dom::XmlNode) -> Vec<dom::XmlNode> {
     let mut nodes = vec![];
 
     for child in node.child_nodes().iter() {
-        // The document type declaration is not a node of the XPath data model.
-        if child.node_type() == dom::NodeType::DocumentType {
+        if !in_data_model(&child) {
             continue;
         }
 
